@@ -626,10 +626,12 @@ func (s *bsys) Invariant(prevCanon, ev string) []vxstate.Finding {
 	return out
 }
 
-// positions survive close / reopen (or stop / re-create): consumed unchanged; ack unchanged, or - the
-// mechanism named by the property - lifted to the queue ack if it was below it.
+// positions survive close / reopen (or stop / re-create): consumed and ack unchanged, or - the mechanism
+// named by the property ("a reopened group never starts below the queue ack") - lifted to the queue ack
+// if the group's ack was below it.
 func (s *bsys) checkSurvive(add func(clause, site, detail string), clause, site, n string, was, now gpos, q int64, ctx string) {
-	if now.C != was.C {
+	// (consumed may follow the lifted ack up to the queue ack: sequences at or below the queue ack no longer exist)
+	if now.C != was.C && !(was.K < q && was.C < q && now.C == q) {
 		add(clause, site, fmt.Sprintf("group %s: consumed %d -> %d | %s", n, was.C, now.C, ctx))
 	}
 	if now.K != was.K && !(was.K < q && now.K == q) {
@@ -699,6 +701,14 @@ func runBFS(f *vevid.Flags, rep *vevid.Report, r replay) {
 		return
 	}
 	cfgs := bfsConfigs(f.Thorough())
+	if only := os.Getenv("C06_CONFIGS"); only != "" { // debugging: explicit configuration list profile/appends/groups,...
+		cfgs = nil
+		for _, n := range strings.Split(only, ",") {
+			p := strings.Split(n, "/")
+			k, _ := strconv.Atoi(p[1])
+			cfgs = append(cfgs, mkcfg(p[0], k, strings.Split(p[2], "")...))
+		}
+	}
 	rep.Rule = "one breadth-first search to fixpoint per configuration (payload-size profile x max appends x group names) over the events append, consume(g), ack(g,s) and setConsumed(g,s) for s in [-1..appended+1], sync, gc, create(g) (also on a live group), stop(g), reopen on a real FanOutQueue in a scratch directory; a successor = fresh queue + replay of the shortest history + one event; states deduplicated by (in-memory positions, group status, directory image); the oracle runs on every transition. distinct_nontrivial = distinct canonical states with >=1 appended message and >=1 live group"
 	rep.Bounds["ack_and_setConsumed_argument_range"] = "[-1 .. appended+1]"
 	var names []string
